@@ -189,7 +189,8 @@ DoGetTab(s0, ev) ==
     IN  [ s |-> s0,
           fails |-> F(IsRS(s0) /\ ~s0.done => ev.st # OK /\ nonnull = {}, "C10", "gettab-before-completion")
                     \cup F((~IsRS(s0) \/ s0.done) => ev.st = OK, "C10", "gettab-status")
-                    \cup F(\A i \in nonnull : EntryOK(s0, T[i + 1], i), decTag, "wrong-source-symbol")
+                    \cup F(\A i \in nonnull : T[i + 1].o # "cb" => EntryOK(s0, T[i + 1], i), decTag, "wrong-source-symbol")
+                    \cup F(\A i \in nonnull : T[i + 1].o = "cb" => EntryOK(s0, T[i + 1], i), decTag \o ",C11", "wrong-source-symbol")
                     \cup F(nonnull \subseteq A, availTag, "symbol-available-but-not-derivable")
                     \cup F(A \subseteq nonnull, availTag \o ",C10", "symbol-derivable-but-not-available")
                     \cup F(\A i \in nonnull \cap s0.appHeld : T[i + 1].o = "app", "C10", "received-source-not-same-pointer")
